@@ -1007,6 +1007,9 @@ pub fn regress_f2(rec: &mut Rec, rng: &mut Rng) {
     }
     sim.settle(rec, rng);
     common_checks(rec, &mut sim, "C09");
+    // the client that shut its read side down and to which a write failed must be released once its second request
+    // has been answered (late, during the settling) — and the epoll descriptor must fall silent
+    release_check(rec, &mut sim, "C09");
     sim.w.teardown();
 }
 
